@@ -226,7 +226,7 @@ func c01Mini(r *Run) {
 	rr := r.Rng
 	n := 600
 	if r.Thorough() {
-		n = 8000
+		n = 30000
 	}
 	for i := 0; i < n; i++ {
 		// environment: x0..x2 strings / bools / absent, x3..x4 lists
